@@ -46,6 +46,13 @@ def gen(ctx, tier, rng):
                 data = bytes(rng.randrange(1, 256) for _ in range(min(n, cap)))
                 rest = bytes(0xA0 + (i % 0x50) for i in range(max(cap - n, 0)))
                 L.append("pad %s %d %d" % (hexs(data + rest), n, bs))
+    # huge block sizes (the marker loop compares indices through the top byte of a size_t: every block size must behave alike), with
+    # zero and non-zero previous buffer contents, capacity exact / one short / generous
+    for bs in [(1 << k) + d for k in (16, 20, 23, 24, 25, 26) for d in (-1, 0, 1)] + [16777217, 50000000]:
+        for n in (0, 1, 100, bs - 1, bs, bs + 1):
+            for fill in (0x00, 0xff, 0x5b):
+                for delta in ((0, 1, 2) if fill == 0xff else (1,)):
+                    L.append("pad.big %d %d %d %d" % (n, bs, fill, delta))
     # blocksize 0, and out-of-contract n (n > cap): error / misuse paths
     buf = bytes(range(1, 33))
     L.append("pad %s 5 0" % hexs(buf))
@@ -92,6 +99,10 @@ def gen(ctx, tier, rng):
 def predicate(ctx, line, impl, model):
     p = line.split(" ")
     bx = lambda s: b"" if s == "-" else bytes.fromhex(s)
+    if p[0] == "pad.big":
+        n, bs, delta = int(p[1]), int(p[2]), int(p[4])
+        exp = "-1" if delta == 0 else "0 %d marker=128 tailnz=0 dataok=1 unpad=0,%d" % (padlen(n, bs), n)
+        return impl != exp, "padding of a huge block is not 0x80 followed by zeros / does not round-trip" if impl != exp else "as specified"
     if p[0] == "pad":
         buf, n, bs = bx(p[1]), int(p[2]), int(p[3])
         cap = len(buf)
